@@ -28,7 +28,7 @@ def check_case(ctx, case):
 
 
 def shard(ctx):
-    drive(ctx, c14.case_strategy(), check_case, ctx.share(400, 20000))
+    drive(ctx, c14.case_strategy(), check_case, ctx.share(1000, 20000))
 
 
 def replay(ctx, case):
